@@ -81,6 +81,25 @@ def gen_cases(tier, seed):
                 s['plan'] = {'faults': [{'at': f'{rk}#{j}', 'phase': 'body', 'kind': 'connreset', 'bytes': rng.choice([0, 1, n]),
                                          'tag': f'FAULT-{bi}-r{j}'} for j in range(nf)]}
                 cases.append(s)
+    # the writer lagging behind the requests: every destination write is held at a gate until the process is quiescent (all
+    # requests done, the caller already waiting), and then one of the writes / the close fails
+    for fe, cfgs in (('legacy', dict(multipart_threshold=16, multipart_chunksize=8, max_concurrency=3, num_download_attempts=2, max_io_queue=100)),
+                     ('manager', dict(multipart_threshold=16, multipart_chunksize=8, io_chunksize=4, max_request_concurrency=3, max_io_queue_size=1000)),
+                     ('procpool', dict(multipart_threshold=16, multipart_chunksize=8, workers=3, io_chunksize=4))):
+        for size in (10, 20, 33):
+            for pre in (False, True):
+                nwrites = {'legacy': (size + 7) // 8 if size >= 16 else 1, 'manager': (size + 3) // 4, 'procpool': (size + 3) // 4}[fe]
+                for wi in range(nwrites):
+                    if fe == 'procpool':
+                        continue  # the worker writes through the built-in open(), not through the hooked OSUtils
+                    for phase in ('before', 'after'):
+                        s = {'front_end': fe, 'seed': rng.randrange(1 << 30), 'config': dict(cfgs), 'dirwatch': True,
+                             'transfers': [{'kind': 'download', 'dst': 'path', 'size': size, 'preexisting': pre}],
+                             'plan': {'gate': {'match': '/fs:write', 'phase': 'before', 'policy': 'seeded'},
+                                      'faults': [{'at': f't0/fs:write#{wi}', 'phase': phase, 'kind': 'oserror', 'tag': f'FAULT-lag-{wi}'}]}}
+                        if fe == 'manager':
+                            s.pop('front_end')
+                        cases.append(s)
     rng.shuffle(cases)
     return cases
 
